@@ -130,6 +130,14 @@ CHECKS.update({
   "DESIGN.md 4 C15"),
 })
 
+CHECKS.update({
+ "C16": ("exploration", "mapx",
+  "schedule enumeration where a schedule is the iteration order of a Go map: an AST rewriter (tools/maprange, build overlay) routes every `range <map>` of the repository through a shim; all orders (n<=4) or rotations/reversal/adjacent transpositions of every dynamic occurrence are run, one (thorough: two) deviating occurrence per run, and stdout/stderr/exit status compared byte for byte with the canonical-order run",
+  "36 static range-over-map sites are instrumented mechanically (found by type, not by line number); 1542 inputs (all corpus pairs + tie-rich generated ones), 228k runs quick. Exhaustive for deviation bound 1 over the listed inputs.",
+  "Map order is the only nondeterminism on the planning path; if the rewriter finds no site the build fails ('instrumentation point not found').",
+  "DESIGN.md 4 C16"),
+})
+
 NOT_YET = "check not built yet in this round (design in DESIGN.md section 4); no technique switch intended"
 
 def main():
@@ -157,7 +165,7 @@ def main():
         "setup_cmd": "./build.sh all",
         "hooks": {
             "guard": "verif",
-            "enable": "no source change in /repo: instrumentation is applied at check time with 'go build -overlay' (files tagged //go:build verif, built with -tags verif) from /verif/harness; see MANIFEST.hooks",
+            "enable": "no source change in /repo: ./build.sh builds the drivers with go build -tags verif -overlay (fake goexpect; for C16 additionally the map-range rewrite + verifmap shim); see MANIFEST.hooks",
             "baseline_off_cmd": "cd /repo/go && GOFLAGS=-mod=mod GOPROXY=off go test -vet=off -count=1 ./...",
             "source_commits": [],
             "add_only": True,
